@@ -98,6 +98,7 @@ func cmdVerify(args []string) {
 	timeout := fs.Int("t", 10, "per-query timeout (s)")
 	verbose := fs.Bool("v", false, "verbose")
 	keep := fs.String("keep", "", "keep SMT files in this directory")
+	split := fs.Bool("split", false, "diagnose: re-try every top-level conjunct of an undischarged goal on its own")
 	fs.Parse(args)
 	e, err := loadEngine(*repo, pkgs, nil, stdSpecFiles())
 	if err != nil {
@@ -153,6 +154,9 @@ func cmdVerify(args []string) {
 					shownErr = true
 					fmt.Println(indent(firstLines(r.Raw, 2), "      "))
 				}
+				if !ok && *split && r.Obl.Required {
+					splitDiagnose(e, r)
+				}
 			}
 		}
 	}
@@ -178,4 +182,82 @@ func trimModel(m string) string {
 		return m[:6000] + "\n..."
 	}
 	return m
+}
+
+// splitDiagnose re-runs an undischarged obligation once per top-level conjunct of its goal
+// (development aid: tells which part of a conjunctive contract clause the solvers cannot prove).
+func splitDiagnose(e *Engine, r *OblResult) {
+	qb, err := os.ReadFile(r.Query)
+	if err != nil {
+		return
+	}
+	q := string(qb)
+	last := "(assert " + and(r.Obl.Guard, not(r.Obl.Goal)) + ")"
+	i := strings.LastIndex(q, last)
+	if i < 0 {
+		fmt.Println("      split: final assertion not found")
+		return
+	}
+	prefix := q[:i]
+	parts := flattenAnd(string(r.Obl.Goal))
+	for k, pt := range parts {
+		query := prefix + "(assert " + and(r.Obl.Guard, not(Term(pt))) + ")\n"
+		sr := solve(e.workdir, fmt.Sprintf("split.%d", k), query, e.timeout, false)
+		txt := pt
+		if len(txt) > 400 {
+			txt = txt[:400] + "..."
+		}
+		fmt.Printf("      part %d/%d %-8s %.1fs %s\n", k+1, len(parts), sr.Status, sr.Seconds, txt)
+	}
+}
+
+func flattenAnd(t string) []string {
+	t = strings.TrimSpace(t)
+	if !strings.HasPrefix(t, "(and ") {
+		return []string{t}
+	}
+	var out []string
+	depth, start := 0, -1
+	body := t[5 : len(t)-1]
+	for i := 0; i < len(body); i++ {
+		switch body[i] {
+		case '|':
+			j := strings.IndexByte(body[i+1:], '|')
+			if j < 0 {
+				return []string{t}
+			}
+			if depth == 0 && start < 0 {
+				start = i
+			}
+			i += j + 1
+			if depth == 0 && (i+1 >= len(body) || body[i+1] == ' ') {
+				out = append(out, flattenAnd(body[start:i+1])...)
+				start = -1
+			}
+		case '(':
+			if depth == 0 {
+				start = i
+			}
+			depth++
+		case ')':
+			depth--
+			if depth == 0 {
+				out = append(out, flattenAnd(body[start:i+1])...)
+				start = -1
+			}
+		case ' ':
+			if depth == 0 && start >= 0 {
+				out = append(out, body[start:i])
+				start = -1
+			}
+		default:
+			if depth == 0 && start < 0 {
+				start = i
+			}
+		}
+	}
+	if start >= 0 {
+		out = append(out, body[start:])
+	}
+	return out
 }
